@@ -7,6 +7,7 @@ choices, including cuts inside the prompt string); the model is bound to reality
 running the short sequences against real bash through replwrap.bash()."""
 import itertools
 import signal
+import termios
 
 import pexpect
 from pexpect import EOF, TIMEOUT
@@ -26,7 +27,8 @@ ASSUMPTIONS = ['REPL model: line oriented, no echo, SIGINT cancels the open bloc
 EXHAUSTIVE = False      # complete only within the deviation bound, see BOUND_NOTE
 BOUND_NOTE = 'all placements of at most 2 chunk cuts are enumerated completely; more than 2 cuts per command sequence are not explored'
 REQUIRED_FLAGS = {'cut_inside_prompt': 1, 'incomplete_then_ok': 1, 'multiline': 1, 'large': 1, 'real_bash': 1, 'real_python': 1,
-                  'cut_before_last_prompt_char': 1, 'partial_output_then_incomplete_then_ok': 1, 'awaited_trailing_newline_block': 1}
+                  'cut_before_last_prompt_char': 1, 'partial_output_then_incomplete_then_ok': 1, 'awaited_trailing_newline_block': 1,
+                  'awaited_crlf_separated_lines': 1, 'incomplete_with_timeout_none_then_ok': 1, 'existing_spawn_with_echo_on': 1}
 
 PROMPT = replwrap.PEXPECT_PROMPT
 CONT = replwrap.PEXPECT_CONTINUATION_PROMPT
@@ -47,7 +49,12 @@ COMMANDS = {
     'outthenincomplete': ('one\nbegin', None),
     # a block that only runs on the empty line a trailing newline stands for (Python REPL)
     'blockblank': ('begin\none\n', 'blank-closed' + NL),
+    # lines separated by CR LF (str.splitlines() takes both), in either form
+    'crlflines': ('begin\r\nend', 'block-done' + NL),
+    # "wait as long as it takes" on input that turns out to be incomplete
+    'incomplete-tnone': ('begin', None),
 }
+TIMEOUTS = {'incomplete-tnone': None, 'crlflines': 7.5}
 OUT = {'noout': '', 'one': 'line1' + NL, 'three': 'l1' + NL + 'l2' + NL + 'l3' + NL, 'nonl': 'partial',
        'big10k': 'x' * 10000 + NL, 'big300k': ('0123456789' * 30000) + NL}
 
@@ -74,6 +81,9 @@ class Repl(object):
             if nl < 0:
                 break
             res.append(data[self.consumed:nl].decode('utf-8'))
+            if getattr(self, 'tty_echo', False) and termios.tcgetattr(self.sp.hs_slave)[3] & termios.ECHO:
+                self.flags.add('echoed-line')
+                self.env.peer_write(self.sp.hs_slave, data[self.consumed:nl] + b'\r\n')
             self.consumed = nl + 1
         return res
 
@@ -155,6 +165,9 @@ def tasks(tier):
     for first in sorted(COMMANDS):
         out.append(dict(kind='model', first=first, tier=tier))
         out.append(dict(kind='model', first=first, tier=tier, aio=True))
+    # a wrapper put on an existing spawn whose terminal still echoes (the constructor has to switch that off first)
+    for first in ('one', 'incomplete', 'twoline'):
+        out.append(dict(kind='model', first=first, tier=tier, echo=True))
     for i in range(4):
         out.append(dict(kind='real-bash', part=i, parts=4, tier=tier))
     for i in range(4):
@@ -162,7 +175,7 @@ def tasks(tier):
     return out
 
 
-def run_case(ch, seq, maxcuts=2, use_aio=False):
+def run_case(ch, seq, maxcuts=2, use_aio=False, echo_on=False):
     E.install()
     loop = None
     if use_aio:
@@ -175,10 +188,15 @@ def run_case(ch, seq, maxcuts=2, use_aio=False):
     viol = None
     obs = {'results': []}
     try:
-        sp = E.pty_spawn(env, encoding='utf-8', echo=False, timeout=5, spawn_kw=dict(raw=True))
+        sp = E.pty_spawn(env, encoding='utf-8', echo=echo_on, timeout=5, spawn_kw=dict(raw=True, echo=echo_on))
         box['sp'] = sp
         sp.delaybeforesend = None
+        if echo_on:
+            # an existing spawn whose terminal still echoes: the echo is produced by the REPL model at the moment
+            # of each write (while the ECHO flag of the real terminal is set), not by the kernel
+            env.no_real_write.add(sp.hs_master)
         repl_model = Repl(env, sp, ch, maxcuts)
+        repl_model.tty_echo = echo_on
         env.pump = repl_model.pump
         rw = replwrap.REPLWrapper(sp, '>>> ', 'CHANGE {0} {1}')
         if use_aio:
@@ -187,10 +205,11 @@ def run_case(ch, seq, maxcuts=2, use_aio=False):
         for name in seq:
             cmd, want = COMMANDS[name]
             try:
+                tmo = TIMEOUTS.get(name, 5)
                 if use_aio:
-                    got = loop.run_until_complete(rw.run_command(cmd, timeout=5, async_=True))
+                    got = loop.run_until_complete(rw.run_command(cmd, timeout=tmo, async_=True))
                 else:
-                    got = rw.run_command(cmd, timeout=5)
+                    got = rw.run_command(cmd, timeout=tmo)
                 kind = 'ret'
             except ValueError as e:
                 got, kind = None, 'ValueError'
@@ -198,6 +217,10 @@ def run_case(ch, seq, maxcuts=2, use_aio=False):
                 got, kind = None, 'TIMEOUT'
             except EOF as e:
                 got, kind = None, 'EOF'
+            except (E.Hang, Cut, E.HarnessError):
+                raise
+            except Exception as e:          # any other exception out of run_command is a verdict, not a crash of the check
+                got, kind = None, type(e).__name__
             obs['results'].append((name, kind, None if got is None else (got if len(got) < 60 else '%s...(%d)' % (got[:20], len(got)))))
             if want is None:
                 if kind != 'ValueError':
@@ -248,6 +271,7 @@ BASH = {
     'trailingnl': ('echo line1\n', 'line1' + NL),
     'quotedblank': ("echo 'a\n\nb'", 'a' + NL + NL + 'b' + NL),
     'outthenincomplete': ('echo early\nif true; then', None),
+    'crlflines': ('if true; then\r\necho block-done; fi', 'block-done' + NL),
 }
 
 PYTHON = {
@@ -282,10 +306,14 @@ def run_real(task, acc, only_seq=None):
                 for name in seq:
                     cmd, want = TABLE[name]
                     try:
-                        got = rw.run_command(cmd, timeout=20)
+                        got = rw.run_command(cmd, timeout=None if (want is None and name == 'incomplete') else 20)
                         res.append((name, 'ret', got, want))
                     except ValueError:
                         res.append((name, 'ValueError', None, want))
+                    except (TIMEOUT, EOF, OSError):
+                        raise
+                    except Exception as e:
+                        res.append((name, type(e).__name__, None, want))
                 rw.child.close(force=True)
                 break
             except (TIMEOUT, EOF, OSError):
@@ -329,7 +357,7 @@ def run_task(task):
             big = 'big300k' in seq
 
             def run(ch):
-                return run_case(ch, seq, maxcuts=1 if big else 2, use_aio=bool(task.get('aio')))
+                return run_case(ch, seq, maxcuts=1 if big else 2, use_aio=bool(task.get('aio')), echo_on=bool(task.get('echo')))
             for ch, (obs, viol) in dfs(run):
                 acc.execs += 1
                 acc.transitions += len(seq)
@@ -344,6 +372,12 @@ def run_task(task):
                     acc.flags['partial_output_then_incomplete_then_ok'] += 1
                 if 'blockblank' in seq and task.get('aio'):
                     acc.flags['awaited_trailing_newline_block'] += 1
+                if task.get('echo'):
+                    acc.flags['existing_spawn_with_echo_on'] += 1
+                if 'crlflines' in seq and task.get('aio'):
+                    acc.flags['awaited_crlf_separated_lines'] += 1
+                if 'incomplete-tnone' in seq[:-1]:
+                    acc.flags['incomplete_with_timeout_none_then_ok'] += 1
                 if 'incomplete' in seq[:-1]:
                     acc.flags['incomplete_then_ok'] += 1
                 if any(s in ('twoline', 'block3', 'blankinside') for s in seq):
@@ -352,7 +386,7 @@ def run_task(task):
                     acc.flags['large'] += 1
                 acc.outcomes['%s/%d-cuts' % ('viol:' + viol[0] if viol else 'ok', len(obs.get('cuts', ())))] += 1
                 if viol:
-                    acc.violation('model%s:%s:%s' % ('-awaited' if task.get('aio') else '', seq[len(obs['results']) - 1] if obs.get('results') else seq[0], viol[0]),
+                    acc.violation('model%s%s:%s:%s' % ('-awaited' if task.get('aio') else '', '-echo-on' if task.get('echo') else '', seq[len(obs['results']) - 1] if obs.get('results') else seq[0], viol[0]),
                                   '%s | cuts %r' % (viol[1], obs.get('cuts')), dict(task=task, seq=list(seq), choices=ch.choices()))
     acc.states += 1
     acc.sample(dict(task=task, seq=['incomplete', 'three', 'twoline'], cuts=['inside-prompt']))
@@ -373,8 +407,8 @@ def replay(spec):
                 out['violation'] = {'key': k, 'msg': v[0]['msg']}
         return out
     seq = tuple(spec['seq'])
-    obs, viol = run_case(Chooser(spec['choices']), seq, maxcuts=1 if 'big300k' in seq else 2, use_aio=bool(task.get('aio')))
+    obs, viol = run_case(Chooser(spec['choices']), seq, maxcuts=1 if 'big300k' in seq else 2, use_aio=bool(task.get('aio')), echo_on=bool(task.get('echo')))
     out['observation'] = obs
     if viol:
-        out['violation'] = {'key': 'model%s:%s:%s' % ('-awaited' if task.get('aio') else '', seq[len(obs['results']) - 1] if obs.get('results') else seq[0], viol[0]), 'msg': viol[1]}
+        out['violation'] = {'key': 'model%s%s:%s:%s' % ('-awaited' if task.get('aio') else '', '-echo-on' if task.get('echo') else '', seq[len(obs['results']) - 1] if obs.get('results') else seq[0], viol[0]), 'msg': viol[1]}
     return out
